@@ -1547,7 +1547,9 @@ theorem c01_finish_responder (K : Crypto) (msg : Bytes) (s s' : MState) (a : Ake
   simp only [runM_pure, Res.ok.injEq, Prod.mk.injEq] at hx h5
   obtain ⟨-, rfl⟩ := hx
   obtain ⟨-, rfl⟩ := h5
-  have hk := generateNewDHKeyPair_their K (respAke K a gx keyID ours).keys rr
+  have hk := generateNewDHKeyPair_their K
+    { (respAke K a gx keyID ours).keys with oldMACKeys := (respAke K a gx keyID ours).keys.oldMACKeys ++
+        (s6.conv.keys.oldMACKeys ++ s6.conv.keys.macHistory.map (fun u : MacUse => u.key)) } rr
   refine ⟨m, gxBytes, gx, pk, keyID, ours, hd, hc, hh, hmpi, hge1, hge2, ho, hok, rfl, htk6, hk.1, hk.2.1, hk.2.2,
     ?_, ?_, rfl, ?_⟩
   · show (if s6.conv.msgState = .encrypted then (respAke K a gx keyID ours).ssid else s6.conv.ssid) = _
@@ -1610,7 +1612,9 @@ theorem c01_finish_initiator (K : Crypto) (msg rs : Bytes) (s s' : MState) (a : 
   simp only [runM_pure, Res.ok.injEq, Prod.mk.injEq] at hx h5
   obtain ⟨-, rfl⟩ := hx
   obtain ⟨-, rfl⟩ := h5
-  have hk := generateNewDHKeyPair_their K (initAkeDone a theirs keyID).keys rr
+  have hk := generateNewDHKeyPair_their K
+    { (initAkeDone a theirs keyID).keys with oldMACKeys := (initAkeDone a theirs keyID).keys.oldMACKeys ++
+        (s6.conv.keys.oldMACKeys ++ s6.conv.keys.macHistory.map (fun u : MacUse => u.key)) } rr
   refine ⟨m, pk, keyID, theirs, ours, hd, ht, ho, hok, rfl, htk6, hk.1, hk.2.1, hk.2.2, ?_, ?_, rfl, ?_⟩
   · show (if s6.conv.msgState = .encrypted then (initAkeDone a theirs keyID).ssid else s6.conv.ssid) = _
     rw [hm6, hss6]; rfl
